@@ -92,12 +92,12 @@ def run(rep, work, tier, seed, only=None):
 def toric2d_tie(rep, work, recs):
     """Layer P tie: the parametric Toric2D model's tables equal the dumped ones on every grid size."""
     from common import coqc_many, eval_results, coq_Z
-    items = [r for r in recs if r['cls'] in ('Toric2DCode', 'Planar2DCode', 'RotatedPlanar2DCode', 'Toric3DCode', 'Planar3DCode', 'XCubeCode') and r['deformation'] is None]
+    items = [r for r in recs if r['cls'] in ('Toric2DCode', 'Planar2DCode', 'RotatedPlanar2DCode', 'Toric3DCode', 'Planar3DCode', 'RotatedPlanar3DCode', 'XCubeCode') and r['deformation'] is None]
     if not items:
         return
     pt = lambda c: '(' + ', '.join(coq_Z(x) for x in c) + ')'
     pl = lambda l: '[' + '; '.join(pt(c) for c in l) + ']'
-    lines = ['From Coq Require Import ZArith List Bool.\nImport ListNotations.\nFrom PQ Require Import Toric2D.\nFrom PQ Require Planar2D RotatedPlanar2D Toric3D Planar3D Planar3DLogicals XCube.\nLocal Open Scope Z_scope.\n']
+    lines = ['From Coq Require Import ZArith List Bool.\nImport ListNotations.\nFrom PQ Require Import Toric2D.\nFrom PQ Require Planar2D RotatedPlanar2D Toric3D Planar3D Planar3DLogicals RotatedPlanar3D RotatedPlanar3DLogicals XCube.\nLocal Open Scope Z_scope.\n']
     for r in items:
         sup = '[' + '; '.join(pl([it[1] for it in op]) for op in r['stab_ops']) + ']'
         lg = [pl([it[1] for it in op]) for op in r['lx_ops'] + r['lz_ops']]
@@ -113,10 +113,12 @@ def toric2d_tie(rep, work, recs):
                 r['size'][0], r['size'][1], r['size'][2], pl(r['qubits']), pl([sc[i] for i in cubes_i]), pl([sc[i][1:] for i in faces_i[0]]),
                 '[' + '; '.join(ops[i] for i in cubes_i) + ']',
                 '[' + '; '.join('[' + '; '.join(ops[i] for i in faces_i[a]) + ']' for a in (0, 1, 2)) + ']'))
-        elif r['cls'] in ('Toric3DCode', 'Planar3DCode'):
+        elif r['cls'] in ('Toric3DCode', 'Planar3DCode', 'RotatedPlanar3DCode'):
             extra = ''
             if r['cls'] == 'Toric3DCode':
                 extra = (' && Toric3D.logicals_match %d %d %d %s' % (r['size'][0], r['size'][1], r['size'][2], ' '.join(lg))) if len(lg) == 6 else ' && false'
+            elif r['cls'] == 'RotatedPlanar3DCode':
+                extra = (' && RotatedPlanar3DLogicals.logicals_match %d %d %d %s' % (r['size'][0], r['size'][1], r['size'][2], ' '.join(lg))) if len(lg) == 2 else ' && false'
             else:
                 extra = (' && Planar3DLogicals.logicals_match %d %d %d %s' % (r['size'][0], r['size'][1], r['size'][2], ' '.join(lg))) if len(lg) == 2 else ' && false'
             lines.append('Eval vm_compute in ' + r['cls'][:-4] + '.table_matches %d %d %d %s %s %s%s.\n' % (
